@@ -235,7 +235,7 @@ func TestLazyRetry(t *testing.T) {
 func TestFailingCandidates(t *testing.T) {
 	kit.Rec.Rule(rule)
 	rapid.Check(t, func(t *rapid.T) {
-		s := graph.Gen(t, graph.GenOpts{MinNodes: 2, MaxNodes: 5, Variants: "NNLLE", Aliases: true})
+		s := graph.Gen(t, graph.GenOpts{MinNodes: 2, MaxNodes: 5, Variants: "NNLLEXY", Aliases: true})
 		faulty := 0
 		for i := range s.Nodes {
 			if rapid.IntRange(0, 2).Draw(t, "faulty") == 0 {
